@@ -39,6 +39,15 @@ def check_membership(ctx, case):
         for k in case.get("rots", range(len(wd))):
             if (q in (rec >> k)) != got:
                 ctx.fail("membership of {!r} changes when {!r} is rotated by {}".format(q, wd, k), case)
+    # the sequence is replaced after a first query: the next query must be about the new sequence
+    if wd:
+        new = gen.rot(wd[::-1], 1) if len(set(wd)) > 1 else ("A" if wd[0] != "A" else "C") * len(wd)
+        rec.seq = Seq(new)
+        again = q in rec
+        if again != expected_in(new, q):
+            ctx.fail("after a first query on {!r} the sequence is replaced by {!r}; {!r} in record is then {} but the "
+                     "query {} in a rotation of the new sequence".format(
+                         wd, new, q, again, "occurs" if expected_in(new, q) else "does not occur"), case)
     ctx.case(case, nontrivial=(len(q) >= 1 and len(wd) >= 2), key=[wd, q])
     ctx.op(("IN", wd, q), case)
 
